@@ -88,7 +88,15 @@ impl<R: Rng, M: QmcManager> Qmc<R, M> {
     }
 
     /// Add an interaction to the QMC instance.
-    fn add_interaction(&mut self, interaction: Interaction) {
+    fn add_interaction(&mut self, interaction: Interaction) -> Result<(), String> {
+        // An interaction on a variable the sampler does not have cannot be sampled.
+        let nvars = self.state.as_ref().map(|s| s.len()).unwrap_or(0);
+        if let Some(v) = interaction.vars.iter().find(|v| **v >= nvars) {
+            return Err(format!(
+                "Interaction acts on variable {} but there are only {} variables",
+                v, nvars
+            ));
+        }
         // Check if this interaction can be used as a
         if is_valid_cluster_edge(interaction.is_constant(), interaction.vars.len()) {
             self.has_cluster_edges = true;
@@ -102,6 +110,7 @@ impl<R: Rng, M: QmcManager> Qmc<R, M> {
 
         self.bond_weights = None;
         self.bonds.push(interaction);
+        Ok(())
     }
 
     /// Get interactions.
@@ -116,8 +125,7 @@ impl<R: Rng, M: QmcManager> Qmc<R, M> {
         vars: VAR,
     ) -> Result<(), String> {
         let interaction = Interaction::new(mat, vars)?;
-        self.add_interaction(interaction);
-        Ok(())
+        self.add_interaction(interaction)
     }
 
     /// Add an interaction to the QMC instance, adjust with a diagonal offset.
@@ -127,7 +135,7 @@ impl<R: Rng, M: QmcManager> Qmc<R, M> {
         vars: VAR,
     ) -> Result<(), String> {
         let (interaction, offset) = Interaction::new_offset(mat, vars)?;
-        self.add_interaction(interaction);
+        self.add_interaction(interaction)?;
         self.offset -= offset;
         Ok(())
     }
@@ -139,8 +147,7 @@ impl<R: Rng, M: QmcManager> Qmc<R, M> {
         vars: VAR,
     ) -> Result<(), String> {
         let interaction = Interaction::new_diagonal(mat, vars)?;
-        self.add_interaction(interaction);
-        Ok(())
+        self.add_interaction(interaction)
     }
 
     /// Add an interaction to the QMC instance, adjust with a diagonal offset.
@@ -150,7 +157,7 @@ impl<R: Rng, M: QmcManager> Qmc<R, M> {
         vars: VAR,
     ) -> Result<(), String> {
         let (interaction, offset) = Interaction::new_diagonal_offset(mat, vars)?;
-        self.add_interaction(interaction);
+        self.add_interaction(interaction)?;
         self.offset -= offset;
         Ok(())
     }
